@@ -1,0 +1,25 @@
+//go:build verif
+
+// Package verifhook exposes named observation points used by external
+// verification tooling. With the "verif" build tag a handler can be installed
+// that is called (and may block) every time a point is reached.
+package verifhook
+
+import "sync/atomic"
+
+// Handler receives every point reached by the instrumented code.
+type Handler func(name string, subject interface{}, args ...interface{})
+
+var handler atomic.Value
+
+// SetHandler installs (or, with nil, removes) the handler.
+func SetHandler(h Handler) {
+	handler.Store(&h)
+}
+
+// Point calls the installed handler, if any.
+func Point(name string, subject interface{}, args ...interface{}) {
+	if p, _ := handler.Load().(*Handler); p != nil && *p != nil {
+		(*p)(name, subject, args...)
+	}
+}
